@@ -1129,6 +1129,12 @@ def decorate_for_help(d, rnd, hostile=None):
             for it in field_leaves(f):
                 if rnd.random() < 0.25:
                     more(it, rnd)
+            # ... and so do some group headers
+            if f.get("group_help") and rnd.random() < 0.4:
+                f["gh_words"] = [f["group_help"], "header", "of", "several", "styled", "words"]
+                f["group_help"] = " ".join(f["gh_words"])
+                starts = [i for i in range(1, len(f["group_help"])) if f["group_help"][i - 1] == " "]
+                f["gh_cuts"] = sorted(rnd.sample(starts, rnd.randint(1, 3)))
         t = lvl["tail"]
         if t["kind"] == "pos":
             for p in t["items"]:
